@@ -358,6 +358,8 @@ def run(ck, tier):
     F = factsmod.Facts("ws")
     from . import influence as _infl
     _infl.run(ck, F, 'C08')
+    from . import mustpass as _mp
+    _mp.run(ck, F, 'C08')
     run_census(ck, F)
     run_utf8_flag(ck, F)
     run_csv(ck, F)
